@@ -24,7 +24,7 @@ RULE = ("R-score compositions (1-4 tracks; all 30 keys; 14 meters; plain, dotted
         "per tick plus per-(channel, pitch) on/off alternation in stream order, with the events computed from the description. "
         "VLQ encoder: dense range + neighbourhoods of all powers of two (quick), all 2^28 values (thorough). Non-trivial: a score "
         "with a rest adjacent to a chord, a key/meter change, a leading rest with a MIDI instrument, a tempo change or repeat > 0."
-        ' Also: values given as 288/k ticks outside the vocabulary, track names of 120-300 characters, enharmonic twin and repeated bars, tracks sharing one instrument object, and a second write of the same objects must give identical bytes.')
+        ' Also: values given as 288/k ticks outside the vocabulary, track names of 120-300 characters, enharmonic twin and repeated bars, tracks sharing one instrument object, a second write of the same objects must give identical bytes, and sounding entries whose value (300 .. 2000) rounds to 0 or 1 tick; a track without bars among the others, chords that are not in ascending order (after item assignment), entries held in a user subclass of NoteContainer and instruments of a user subclass of MidiInstrument.')
 ASSUMPTIONS = ["values whose exact tick length is x.5 are not generated (rounding would depend on float artefacts)",
                "order of events inside one tick is not prescribed beyond: instrument events before the first note-on, and per "
                "(channel, pitch) strict on/off alternation", "track names are ASCII; the tick of the track-name event is not compared"]
@@ -206,9 +206,14 @@ def _cfg(**kw):
                 text=st.text(alphabet=st.characters(min_codepoint=32, max_codepoint=126), max_size=10), partial_last=True, empty_containers=True)
     # values given as 288/k (k whole ticks), outside the named vocabulary
     base["groups"] = base["groups"] + [[["ticks", k]] for k in (1, 2, 3, 5, 7, 10, 11, 13, 14, 28, 31, 35, 56, 59, 62, 77, 100, 112, 115, 118, 124, 143, 211, 224, 250)]
+    # values so short that they round to 0 ticks (note-on and note-off on the same tick) or to 1 tick
+    base["groups"] = base["groups"] + [[["num", k]] for k in (300, 577, 600, 1000, 1024, 2000)] + [[["num", 1000], [4, 0, 1, 1]], [["num", 640]] * 3]
     long_name = st.text(alphabet=st.characters(min_codepoint=32, max_codepoint=126), min_size=120, max_size=300)
     base["text"] = st.one_of(base["text"], base["text"], base["text"], long_name)
     base["twin_p"] = 5
+    base["empty_track_p"] = 5
+    base["subclass_p"] = 8
+    base["unsorted_p"] = 6
     base["share_instruments"] = True
     base.update(kw)
     return SG.Cfg(**base)
